@@ -2,4 +2,14 @@
 
 package verifsim
 
+import "sync"
+
 const raceEnabled = false
+
+// In plain builds harness state shared between goroutines that run in the
+// same fake instant (hand-off windows) is protected by a real mutex. It is
+// never held across a sleep.
+var harnessMu sync.Mutex
+
+func harnessLock()   { harnessMu.Lock() }
+func harnessUnlock() { harnessMu.Unlock() }
